@@ -730,7 +730,7 @@ impl SimRing {
     }
 
     /// Consume up to `max` published SQEs (K2). Returns the serials.
-    pub fn consume(&mut self, max: u32) -> Vec<u64> {
+    pub fn consume(&mut self, max: u32, publish: bool) -> Vec<u64> {
         let tail = self.sq_tail();
         let avail = tail.wrapping_sub(self.k_sq_head);
         let n = max.min(avail).min(self.sq_entries);
@@ -749,10 +749,15 @@ impl SimRing {
             self.inflight.push(req);
             serials.push(serial);
         }
-        if n > 0 {
-            self.word(self.layout.sq_head).store(self.k_sq_head, Ordering::Release);
+        if n > 0 && publish {
+            self.publish_sq_head();
         }
         serials
+    }
+
+    /// Publish the kernel's SQ head (done once per batch, K2).
+    pub fn publish_sq_head(&mut self) {
+        self.word(self.layout.sq_head).store(self.k_sq_head, Ordering::Release);
     }
 
     pub fn req(&self, serial: u64) -> Option<&Req> {
@@ -783,6 +788,11 @@ impl SimRing {
             unsafe { self.cqe_slot(tail).write_volatile(cqe) };
             posted.position = Some(tail);
             self.word(self.layout.cq_tail).store(tail.wrapping_add(1), Ordering::Release);
+            if req != 0 && cqe.flags & abi::CQE_F_MORE == 0 {
+                // The final completion is visible: user space may process it
+                // (and free the operation state) from now on.
+                track::release(req | regions::STATE_HOLD);
+            }
         }
         ev(SimEvent::Posted { seq, req, cqe, overflowed });
         self.posted.push(posted);
@@ -798,6 +808,9 @@ impl SimRing {
             unsafe { self.cqe_slot(tail).write_volatile(o.cqe) };
             if let Some(p) = self.posted.iter_mut().find(|p| p.seq == o.seq) {
                 p.position = Some(tail);
+            }
+            if o.req != 0 && o.cqe.flags & abi::CQE_F_MORE == 0 {
+                track::release(o.req | regions::STATE_HOLD);
             }
             self.word(self.layout.cq_tail).store(tail.wrapping_add(1), Ordering::Release);
             n += 1;
